@@ -156,7 +156,12 @@ OpsOf(d, step) ==
 (***************************************************************************)
 (* The model.                                                              *)
 (***************************************************************************)
-MCInit == \E s \in SeedIds, o \in OptIds : PInit(SeedTable[s], OptTable[o])
+\* ids above 11 enumerate EVERY combination of the four booleans with the limits 0, 1, 5 (C04, C08)
+OptOf(i) ==
+  IF i <= Len(OptTable) THEN OptTable[i]
+  ELSE LET k == i - Len(OptTable) - 1 IN
+       O(k % 2 = 1, (<<0, 1, 5>>)[((k \div 16) % 3) + 1], (k \div 2) % 2 = 1, (k \div 4) % 2 = 1, (k \div 8) % 2 = 1)
+MCInit == \E s \in SeedIds, o \in OptIds : PInit(SeedTable[s], OptOf(o))
 
 MCNext ==
   /\ status = "run"
